@@ -33,11 +33,13 @@ def gen_sched_case(rng, tier, kind=None, mode=None, static=False, many_to_one=No
         case['fmap'] = None
         classes = flows
     if kind == 'SP':
-        case['table'] = [[f, rng.choice([1, 1, 2, 3, 5, 10])] for f in flows]
+        case['table'] = [[f, rng.choice([1, 1, 2, 3, 5, 10, 0.5, 2.5])] for f in flows]
         rng.shuffle(case['table'])
     elif kind == 'WFQ' and rng.random() < 0.3:
         # fractional weights (shares that sum to at most 1) are as legal as integers
         case['table'] = [[c, rng.choice([0.5, 0.25, 0.125, 0.0625])] for c in classes]
+    elif kind == 'DRR' and rng.random() < 0.25:
+        case['table'] = [[c, rng.choice([1.5, 2.5, 1, 4, 0.5])] for c in classes]
     elif kind in ('WFQ', 'DRR', 'WRR'):
         case['table'] = [[c, rng.choice([1, 1, 2, 3, 4])] for c in classes]
         if rng.random() < 0.5:
@@ -73,6 +75,13 @@ def gen_sched_case(rng, tier, kind=None, mode=None, static=False, many_to_one=No
             if rng.random() < 0.2:
                 ts[k] = rng.choice(deps[:k])
     hop = rng.random() < 0.5
+    if case['fmap'] is None and rng.random() < 0.15:
+        # flow / class ids need not be integers
+        names = ['gold', 'silver', 'bronze', 'lead', 'tin', 'zinc']
+        m = dict((f, names[f % len(names)]) for f in flows)
+        case['flows'] = flows = [m[f] for f in flows]
+        case['table'] = [[m[c], v] for c, v in case['table']]
+        fl = [m[f] for f in fl]
     wl = sorted([[ts[k], fl[k], sizes[k], 0, None, rng.choice([0, 0, 1, 2, 3]) if hop else 0] for k in range(n)],
                 key=lambda x: x[0])
     case['workload'] = wl
